@@ -272,7 +272,13 @@ class Translator:
         self.aux = []           # emitted auxiliary definitions (list of list of lines)
         self.nloop = 0
         self.dropped = []       # statements dropped (asserts, docstrings), recorded in the header
-        self.uses_fuel = _has_while(fn, spec)
+        body_ = list(fn.body)
+        if spec.body_filter:
+            try:
+                body_ = spec.body_filter(body_)
+            except Exception:
+                pass            # reported when the function is translated
+        self.uses_fuel = any(_has_while(st, spec) for st in body_)
         self.optional = self.uses_fuel or bool(spec.pop_map)
 
     # ------------------------------------------------------------------ expressions
